@@ -225,8 +225,21 @@ pub fn check(rep: &mut Report) {
     let base = prelude_ctx();
     let ts = templates();
     let mut cases: Vec<(String, String, String)> = vec![]; // (template name, payload, code)
+    // thorough tier: payloads that imitate the renderer's own markup or break out of an attribute
+    let extra: [&str; 6] = [
+        "<span class=\\\"numbat-value\\\">x</span>",
+        "\\\"><svg onload=alert(1)>",
+        "<a href=\\\"javascript:x\\\">",
+        "<>",
+        "<span>",
+        "</span><span class=numbat-string>",
+    ];
+    let mut payloads: Vec<&str> = PAYLOADS.to_vec();
+    if rep.tier == Tier::Thorough {
+        payloads.extend(extra);
+    }
     for (name, t) in &ts {
-        for p in PAYLOADS {
+        for p in &payloads {
             let code = t.replace('P', p).replace('I', &ident_of(p));
             cases.push((name.to_string(), p.to_string(), code));
         }
@@ -258,6 +271,13 @@ pub fn check(rep: &mut Report) {
             });
             for h in &all {
                 scan(h).map_err(|e| format!("{e}\n--- html ---\n{}", h.chars().take(600).collect::<String>()))?;
+                // a payload that contains `<` must never appear verbatim (the tag scanner alone would
+                // accept user text that imitates the renderer's own <span class="numbat-…">)
+                let raw = cases[i].1.replace("\\\"", "\"");
+                // (`</span>` itself is also the renderer's own closing tag; the balance check covers it)
+                if raw.contains('<') && raw != "</span>" && h.contains(&raw) {
+                    return Err(format!("the payload `{raw}` appears verbatim in the HTML\n--- html ---\n{}", h.chars().take(600).collect::<String>()));
+                }
             }
             Ok((all[0].clone(), is_err, payload_reflected))
         },
@@ -302,7 +322,7 @@ pub fn check(rep: &mut Report) {
     if errs == 0 || oks == 0 || reflected == 0 {
         rep.machinery_error("vacuous: no diagnostics, no results or no reflected payload");
     }
-    rep.rule = "full product of input templates (results, prints, echoes, decorators, info/list output, every diagnostic family that quotes user text or source lines) x HTML payloads; each rendered as the web front end does and scanned: every `<` must start <span class=\"numbat-...\"> or </span>, spans balanced, every `&` must start a character reference; non-trivial = outputs whose text content contains payload metacharacters".into();
+    rep.rule = "full product of input templates (results, prints, echoes, decorators, info/list output, every diagnostic family that quotes user text or source lines) x HTML payloads; each rendered as the web front end does and scanned: every `<` must start <span class=\"numbat-...\"> or </span>, spans balanced, every `&` must start a character reference, and a payload containing `<` never appears verbatim (thorough: + 6 payloads imitating the renderer's own markup); non-trivial = outputs whose text content contains payload metacharacters".into();
     rep.assumptions = vec![
         "the renderer's own markup consists only of <span class=\"numbat-*\"> elements".into(),
         "payload alphabet of 9 strings; templates enumerate the diagnostic kinds that embed user text".into(),
